@@ -66,6 +66,9 @@ RULE = ('case = one symbolic value (typed/untyped x sealed x partial x accessor 
         'normalisers with a fixed point and converters without; root, inside an untyped '
         'container or an Any field): the clone must be equal to the original (the fresh-copy '
         'and fixed-point monitors are off for them, since constructors run the transforms). '
+        '10% of the values get members under legal but unusual keys of their untyped dicts '
+        '(empty string, blanks, dots, brackets, digits, quotes, non-ASCII; the root first of '
+        'all) or are put under such a key of a new root dict. '
         '30% of the functor clones are taken inside pg.auto_call_functors(True) (the result '
         'must be a functor like the source).')
 REQUIRED_COUNTERS = ['clones_checked', 'flag_nodes_compared', 'interference_checks',
@@ -76,7 +79,8 @@ REQUIRED_COUNTERS = ['clones_checked', 'flag_nodes_compared', 'interference_chec
                      'in_tuple_node_mutations', 'plain_member_mutations',
                      'subclass_nodes_compared', 'clones_of_special_values_with_flag_history',
                      'unsealed_below_sealed_nodes_compared',
-                     'clones_of_values_with_user_transforms', 'clones_inside_auto_call_scope']
+                     'clones_of_values_with_user_transforms', 'clones_inside_auto_call_scope',
+                     'clones_of_values_with_unusual_dict_keys']
 ASSUMPTIONS = [
     'values held through pg.Ref are deliberately shared and excluded from the disjointness rule',
     'the observation of the untouched side for non-interference: to_json_str, format(), the '
@@ -412,6 +416,36 @@ def inject_tuples(rng, nodes):
   return '+tuples[' + '; '.join(out)[:400] + ']' if out else ''
 
 
+# Legal but unusual keys of untyped dicts (what JSON data brings along).
+ODD_KEYS = ['', ' ', 'a.b', 'x.', '.', '[0]', '0', '-1', "it's", 'a b', 'a[1]', '*', 'é',
+            '__class__', 'x=1']
+
+
+def inject_odd_keys(rng, v, nodes):
+  """Stores symbolic values (and a plain value) under unusual keys of untyped
+  dicts of the value - the root first of all - or puts the whole value under
+  such a key of a new root dict. Returns (label suffix, value)."""
+  out = []
+  targets = [n for n in nodes if isinstance(n, pg.Dict) and n.value_spec is None]
+  picked = []
+  if isinstance(v, pg.Dict) and v.value_spec is None:
+    picked.append(v)
+  if targets and rng.random() < 0.5:
+    picked.append(rng.choice(targets))
+  if not picked or rng.random() < 0.25:
+    k = rng.choice(ODD_KEYS)
+    other = rng.choice(ODD_KEYS)
+    v = pg.Dict({k: v, other: D.build(D.gen(rng, 1, classes=TUPLE_ITEM_CLASSES))})
+    out.append(f'pg.Dict({{{k!r}: <value>, {other!r}: ...}})')
+  for tgt in picked:
+    for k in rng.sample(ODD_KEYS, rng.randint(1, 3)):
+      d = D.gen(rng, 2, classes=TUPLE_ITEM_CLASSES, symbolic=True if rng.random() < 0.8 else None)
+      with pg.allow_writable_accessors(True):
+        tgt[k] = D.build(d)
+      out.append(f'{str(tgt.sym_path) or "<root>"}[{k!r}]={D.show(d)}')
+  return '+oddkeys[' + '; '.join(out)[:400] + ']', v
+
+
 ROOT_SPECS = [
     ('List(Int)', lambda: T.List(T.Int(min_value=0, max_value=9), max_size=6)),
     ('List(Object(Inner))', lambda: T.List(T.Object(M.Inner), max_size=5)),
@@ -514,6 +548,10 @@ def make_value(rng, tags=None):
     label = D.show(descs[0])
   if rng.random() < 0.08:
     label, v = wrap_subclass(rng, label, v)
+  if rng.random() < 0.1:
+    sfx, v = inject_odd_keys(rng, v, [n for n, _ in TM.nodes_of(v) if not isinstance(n, pg.Ref)])
+    label += sfx
+    tags['odd_keys'] = True
   nodes = [n for n, _ in TM.nodes_of(v) if not isinstance(n, pg.Ref)]
   if rng.random() < 0.3:
     label += inject_tuples(rng, nodes)
@@ -1206,6 +1244,8 @@ def run_case(ctx, i):
       c['clones_of_values_with_user_transforms'] += 1
     if tags.get('special_flags'):
       c['clones_of_special_values_with_flag_history'] += 1
+    if tags.get('odd_keys'):
+      c['clones_of_values_with_unusual_dict_keys'] += 1
     if not equal:
       # (a value whose specs carry user transforms: one mechanism per kind of
       # node that owns those specs, known by construction)
